@@ -729,7 +729,8 @@ def check_literals(case: t.Any, ctx: Ctx) -> None:
 # value: Union[int, str, T] with T := int is Union[int, str]: substitution, then de-duplication, through any depth - no type variable
 # stays behind, whichever members the argument repeats, and conversion enforces what is left.
 
-UF_ARGS = {'int': int, 'str': str, 'float': float, 'bool': bool, 'Union[str, int]': t.Union[str, int], 'Union[float, int]': t.Union[float, int], 'NoneType': type(None)}
+UF_ARGS = {'int': int, 'str': str, 'float': float, 'bool': bool, 'Union[str, int]': t.Union[str, int], 'Union[float, int]': t.Union[float, int], 'NoneType': type(None),
+           'None': None}        # (the way Optional-less code writes it: Result[None]; typing reads it as NoneType)
 UF_SHAPES = ['Union[int, str, T]', 'Union[T, int, str]', 'List[Union[bool, float, T, U]]', 'Optional[Union[int, T]]', 'Dict[str, Union[int, str, T]]']
 
 
@@ -772,6 +773,7 @@ def check_union_fields(case: t.Any, ctx: Ctx) -> None:
     env = {T: A, U: B}
     want: t.List[t.Any] = []
     for m in flatten_union_args([env.get(m, m) for m in members]):
+        m = type(None) if m is None else m
         if m not in want:
             want.append(m)
     got_t = {f.name: f.type for f in C.__pane_info__.fields}['value']
